@@ -70,70 +70,67 @@ def utf8 (s : Str) : List Nat := s.flatMap utf8Enc
 
 def replChar : Char := Char.ofNat 0xFFFD
 
-/-- a UTF-8 continuation byte -/
-abbrev isCont (b : Nat) : Prop := 0x80 ≤ b ∧ b < 0xC0
+/-- decoder state: idle, or inside a multi-byte sequence: code point bits so far, continuation
+    bytes still needed, and the range the next byte must lie in (the second byte of E0/ED/F0/F4
+    sequences is restricted: no overlong forms, no surrogates, nothing above U+10FFFF) -/
+inductive U8
+  | idle
+  | need (acc k lo hi : Nat)
+deriving DecidableEq, Repr
+
+/-- a byte at the start of a sequence: the characters emitted and the new state -/
+def u8Start (b : Nat) : Str × U8 :=
+  if b < 0x80 then ([Char.ofNat b], .idle)
+  else if b < 0xC2 then ([replChar], .idle)
+  else if b < 0xE0 then ([], .need (b - 0xC0) 1 0x80 0xBF)
+  else if b < 0xF0 then
+    ([], .need (b - 0xE0) 2 (if b = 0xE0 then 0xA0 else 0x80) (if b = 0xED then 0x9F else 0xBF))
+  else if b < 0xF5 then
+    ([], .need (b - 0xF0) 3 (if b = 0xF0 then 0x90 else 0x80) (if b = 0xF4 then 0x8F else 0xBF))
+  else ([replChar], .idle)
+
+/-- one byte: a valid continuation extends the sequence; anything else closes the unfinished
+    sequence with one U+FFFD and is then treated as a start byte -/
+def u8Step (st : U8) (b : Nat) : Str × U8 :=
+  match st with
+  | .idle => u8Start b
+  | .need acc k lo hi =>
+    if lo ≤ b ∧ b ≤ hi then
+      (if k ≤ 1 then ([Char.ofNat (acc * 64 + (b - 0x80))], .idle)
+       else ([], .need (acc * 64 + (b - 0x80)) (k - 1) 0x80 0xBF))
+    else (replChar :: (u8Start b).1, (u8Start b).2)
+
+def utf8DecSt : U8 → List Nat → Str
+  | .idle, [] => []
+  | .need _ _ _ _, [] => [replChar]
+  | st, b :: r => (u8Step st b).1 ++ utf8DecSt (u8Step st b).2 r
 
 /-- `bytes.decode('utf-8', 'replace')` as CPython does it: an invalid start byte, or a lead byte
     with the longest valid run of continuation bytes after it, becomes one U+FFFD -/
-def utf8Dec : List Nat → Str
-  | [] => []
-  | b0 :: r0 =>
-    if b0 < 0x80 then Char.ofNat b0 :: utf8Dec r0
-    else if b0 < 0xC2 then replChar :: utf8Dec r0
-    else if b0 < 0xE0 then
-      match r0 with
-      | [] => [replChar]
-      | b1 :: r1 =>
-        if isCont b1 then Char.ofNat ((b0 - 0xC0) * 64 + (b1 - 0x80)) :: utf8Dec r1
-        else replChar :: utf8Dec (b1 :: r1)
-    else if b0 < 0xF0 then
-      match r0 with
-      | [] => [replChar]
-      | b1 :: r1 =>
-        if ¬ isCont b1 ∨ (b0 = 0xE0 ∧ b1 < 0xA0) ∨ (b0 = 0xED ∧ 0xA0 ≤ b1) then
-          replChar :: utf8Dec (b1 :: r1)
-        else
-          match r1 with
-          | [] => [replChar]
-          | b2 :: r2 =>
-            if isCont b2 then
-              Char.ofNat ((b0 - 0xE0) * 4096 + (b1 - 0x80) * 64 + (b2 - 0x80)) :: utf8Dec r2
-            else replChar :: utf8Dec (b2 :: r2)
-    else if b0 < 0xF5 then
-      match r0 with
-      | [] => [replChar]
-      | b1 :: r1 =>
-        if ¬ isCont b1 ∨ (b0 = 0xF0 ∧ b1 < 0x90) ∨ (b0 = 0xF4 ∧ 0x90 ≤ b1) then
-          replChar :: utf8Dec (b1 :: r1)
-        else
-          match r1 with
-          | [] => [replChar]
-          | b2 :: r2 =>
-            if ¬ isCont b2 then replChar :: utf8Dec (b2 :: r2)
-            else
-              match r2 with
-              | [] => [replChar]
-              | b3 :: r3 =>
-                if isCont b3 then
-                  Char.ofNat ((b0 - 0xF0) * 262144 + (b1 - 0x80) * 4096 + (b2 - 0x80) * 64
-                    + (b3 - 0x80)) :: utf8Dec r3
-                else replChar :: utf8Dec (b3 :: r3)
-    else replChar :: utf8Dec r0
+def utf8Dec (bs : List Nat) : Str := utf8DecSt .idle bs
+
+/-- the byte two hex digits at the head of `s` denote -/
+def hexPair : Str → Option Nat
+  | a :: b :: _ =>
+    match hexVal a, hexVal b with
+    | some x, some y => some (x * 16 + y)
+    | _, _ => none
+  | _ => none
+
+/-- `skip` characters are dropped (the two hex digits of an escape just consumed) -/
+def unquoteBytesAux : Nat → Str → List Nat
+  | _, [] => []
+  | skip + 1, _ :: rest => unquoteBytesAux skip rest
+  | 0, c :: rest =>
+    if c == '%' then
+      match hexPair rest with
+      | some b => b :: unquoteBytesAux 2 rest
+      | none => 0x25 :: unquoteBytesAux 0 rest
+    else utf8Enc c ++ unquoteBytesAux 0 rest
 
 /-- the bytes `_unquote_impl` produces: `%XX` (two hex digits) becomes that byte, every other
     character its UTF-8 bytes -/
-def unquoteBytes : Str → List Nat
-  | [] => []
-  | c :: rest =>
-    if c == '%' then
-      match rest with
-      | a :: b :: r =>
-        match hexVal a, hexVal b with
-        | some x, some y => (x * 16 + y) :: unquoteBytes r
-        | _, _ => 0x25 :: unquoteBytes (a :: b :: r)
-      | [a] => 0x25 :: unquoteBytes [a]
-      | [] => [0x25]
-    else utf8Enc c ++ unquoteBytes rest
+def unquoteBytes (s : Str) : List Nat := unquoteBytesAux 0 s
 
 /-- `urllib.parse.unquote(s)` (encoding utf-8, errors replace) -/
 def unquote (s : Str) : Str := utf8Dec (unquoteBytes s)
